@@ -437,3 +437,54 @@ impl Grammar {
         }
     }
 }
+
+/// Canonical event lines for model comparison: anchor ids renumbered by first occurrence, the
+/// explicit-document flag dropped, tags as prefix+suffix.
+pub fn canon_lines(events: &[SEv]) -> Vec<String> {
+    let mut map: std::collections::HashMap<usize, usize> = Default::default();
+    let mut next = 1usize;
+    let mut ren = |aid: usize, map: &mut std::collections::HashMap<usize, usize>| -> usize {
+        if aid == 0 {
+            return 0;
+        }
+        // a node event always introduces a fresh canonical id (ids may not repeat, but be robust)
+        let id = next;
+        next += 1;
+        map.insert(aid, id);
+        id
+    };
+    events
+        .iter()
+        .map(|e| match e {
+            SEv::Scalar { v, style, aid, tag } => SEv::Scalar { v: v.clone(), style: *style, aid: ren(*aid, &mut map), tag: tag.clone() }.line(),
+            SEv::SeqStart { aid, tag } => SEv::SeqStart { aid: ren(*aid, &mut map), tag: tag.clone() }.line(),
+            SEv::MapStart { aid, tag } => SEv::MapStart { aid: ren(*aid, &mut map), tag: tag.clone() }.line(),
+            SEv::Alias(id) => match map.get(id) {
+                Some(c) => format!("=ALI *{c}"),
+                None => format!("=ALI *?{id}"),
+            },
+            other => other.line_nodoc(),
+        })
+        .collect()
+}
+
+/// Compare expected (model) lines with actual lines. An expected empty plain scalar (`... :` with
+/// nothing after the style mark) stands for an omitted node and matches `` or `~`.
+pub fn lines_first_diff(expected: &[String], actual: &[String]) -> Option<usize> {
+    let n = expected.len().max(actual.len());
+    for i in 0..n {
+        match (expected.get(i), actual.get(i)) {
+            (Some(e), Some(a)) => {
+                if e == a {
+                    continue;
+                }
+                if e.starts_with("=VAL") && e.ends_with(" :") && *a == format!("{e}~") {
+                    continue;
+                }
+                return Some(i);
+            }
+            _ => return Some(i),
+        }
+    }
+    None
+}
